@@ -24,7 +24,14 @@ pub struct Edit {
 #[derive(Clone, Debug, Serialize, Deserialize)]
 pub enum Case {
     World { dic: DicModel, cfg: CfgModel, texts: Vec<Vec<Piece>> },
-    Edits { original: String, batches: Vec<Vec<Edit>> },
+    Edits {
+        original: String,
+        batches: Vec<Vec<Edit>>,
+        /// what the buffer object went through before: bit 0 = a longer text of other character widths with an
+        /// expanding and a deleting batch, built; bit 1 = a batch rejected because the text would exceed 65,535 bytes
+        #[serde(default)]
+        age: u8,
+    },
 }
 
 pub struct C08;
@@ -189,8 +196,8 @@ impl Property for C08 {
         let dp = DicParams::small();
         let w = (world(dp, CfgParams::full()), vec(pieces_long(tier.pick(10, 30)), 1..=3)).prop_map(|((dic, cfg), texts)| Case::World { dic, cfg, texts });
         let edit = (any::<u16>(), any::<u16>(), edit_string(), 0u8..4).prop_map(|(skip, len, with, api)| Edit { skip, len, with, api });
-        let e = (vec(pool_char(), 1..=tier.pick(24, 40)).prop_map(|v| v.into_iter().collect::<String>()), vec(vec(edit, 1..=6), 1..=4))
-            .prop_map(|(original, batches)| Case::Edits { original, batches });
+        let e = (vec(pool_char(), 1..=tier.pick(24, 40)).prop_map(|v| v.into_iter().collect::<String>()), vec(vec(edit, 1..=6), 1..=4), prop_oneof![2 => Just(0u8), 1 => 1u8..4])
+            .prop_map(|(original, batches, age)| Case::Edits { original, batches, age });
         prop_oneof![1 => w, 3 => e].boxed()
     }
     fn cases_per_shard(&self, tier: Tier) -> u32 {
@@ -270,9 +277,45 @@ impl Property for C08 {
                 }
                 let _ = dict.grammar();
             }
-            Case::Edits { original, batches } => {
+            Case::Edits { original, batches, age } => {
                 let gd = grammar_dict(ctx);
                 let mut buf = InputBuffer::new();
+                if age & 1 != 0 {
+                    // an earlier, longer sentence on the same object
+                    let prev = format!("{}𠮷éあa", "あ𠮷aé".repeat(original.chars().count() + 3));
+                    buf.reset().push_str(&prev);
+                    if buf.start_build().is_ok() {
+                        let _ = buf.with_editor(|_b, mut ed| {
+                            ed.replace_ref(0..3, "株式会社");
+                            ed.replace_ref(7..8, "");
+                            Ok(ed)
+                        });
+                        let _ = buf.with_editor(|_b, mut ed| {
+                            ed.replace_ref(0..6, "");
+                            Ok(ed)
+                        });
+                        let _ = buf.build(gd.grammar());
+                    }
+                    rep.class("edits:aged buffer");
+                }
+                if age & 2 != 0 {
+                    // an earlier sentence whose rewrite was refused for its size
+                    let prev = "㍿".repeat(5500);
+                    buf.reset().push_str(&prev);
+                    if buf.start_build().is_ok() {
+                        let r = buf.with_editor(|_b, mut ed| {
+                            for i in 0..5500 {
+                                ed.replace_ref(i * 3..i * 3 + 3, "株式会社");
+                            }
+                            Ok(ed)
+                        });
+                        if r.is_ok() {
+                            rep.fail("oversize-accepted", "a rewrite to 66,000 bytes was accepted".to_string());
+                            return rep;
+                        }
+                    }
+                    rep.class("edits:after a rejected rewrite");
+                }
                 buf.reset().push_str(original);
                 if buf.start_build().is_err() {
                     rep.class("rejected");
